@@ -8,6 +8,17 @@ package editor
 // the kill buffer: what GetKill returns and what an unqualified yank inserts
 //@ spec killbuf(reg *Buffers) []rune = ite(has(reg.num, 0), reg.num[0], emptyrunes())
 
+// every register holds well-formed text (what was cut or yanked from a line is; see Line invariants)
+//@ pred regsclean(reg *Buffers) = allkeys(k, reg.num, clean(reg.num[k])) && allkeys(k, reg.alpha, clean(reg.alpha[k])) && allkeys(k, reg.ro, clean(reg.ro[k]))
+
+//@ func (*Buffers).Get
+//@   props C16 C17 C01
+//@   terminates
+//@   requires bufok(reg)
+//@   pure
+//@   ensures register == 0 ==> result == killbuf(reg)
+//@   ensures [clean-registers-give-clean-text] regsclean(reg) ==> clean(result)
+
 //@ func (*Buffers).Reset
 //@   props C16 C17 C01
 //@   terminates
@@ -47,6 +58,7 @@ package editor
 //@   requires bufok(reg)
 //@   assigns reg.active, reg.waiting, reg.selected
 //@   ensures [yank-source] !old(reg.waiting) && !old(reg.selected) ==> result == old(killbuf(reg))
+//@   ensures [clean-registers-give-clean-text] regsclean(reg) ==> clean(result)
 //@   ensures reg.active == 0 && !reg.waiting && !reg.selected
 
 //@ func (*Buffers).writeAlpha
